@@ -12,11 +12,17 @@ Because it never misses a dependency, *absence* of an atom is positive evidence.
 from facts import norm, call_name
 
 
+# adaptors whose closure argument only *selects* among the receiver's elements: data flows from the receiver alone
+SELECTORS = {"find", "rfind", "filter", "take_while", "skip_while", "max_by_key", "min_by_key", "max_by", "min_by", "inspect",
+             "retain", "sort_by_key", "sort_by", "dedup_by_key"}
+
+
 class Prov:
     def __init__(self, fn, field_assign=True):
         """field_assign: treat `x.f = e` as making the whole local `x` depend on e (coarse but never misses a
         dependency); switch off when `x` is `self` and per-field precision matters"""
         self.field_assign = field_assign
+        self.data_only = False
         self.fn = fn
         self.src = {}      # local id -> list of (source expr node | None, extra atoms)
         self.params = {}   # local id -> name
@@ -114,6 +120,17 @@ class Prov:
                     stack.append(v)
 
     # ------------------------------------------------------------------- atoms
+    def data_atoms(self, e):
+        """like atoms(), but predicate closures of selecting adaptors (find/filter/..) are not followed: what the value is
+        *made of*, not what it was selected by"""
+        old = self.data_only
+        memo = self._memo
+        self.data_only, self._memo = True, {}
+        try:
+            return self.atoms(e)
+        finally:
+            self.data_only, self._memo = old, memo
+
     def atoms(self, e, _visiting=None):
         if e is None:
             return frozenset()
@@ -151,6 +168,13 @@ class Prov:
                     out.add(("call", c))
                     if n.get("callee") and norm(n["callee"]) != c:
                         out.add(("call", norm(n["callee"])))
+                if self.data_only and k == "MethodCall" and n.get("method") in SELECTORS:
+                    # the result is an element (or sub-sequence) of the receiver; the predicate only selects
+                    stack.append(n["recv"])
+                    for a in n["args"]:
+                        if a.get("k") != "Closure":
+                            stack.append(a)
+                    continue
             elif k == "Struct" and "rest" not in n:
                 out.add(("ctor", norm(n.get("variant") or n.get("adt"))))
             elif k in ("Binding", "Wild", "TupleStruct", "PatExpr", "Tuple", "Or", "Ref", "Range", "Slice") \
